@@ -121,6 +121,8 @@ def run_timing(cr, tier, seed):
     mons = ["M-time", "M-ref", "M-life"]
     limits = {"max_states": 40000 if tier == "quick" else 400000, "max_depth": 400, "only": mons}
     for sc in list(scs):
+        if tier == "thorough":
+            sc["delay_budget"] = sc.get("delay_budget", 0) + 1      # one more point at which time may pass while something else is ready
         common.annotate(sc)
         if not sc.get("prompt_only"):      # (too large for the timed schedule class: explored in the prompt class only)
             jobs.append((sc, None, limits)); by_name[sc["name"]] = sc
@@ -130,7 +132,7 @@ def run_timing(cr, tier, seed):
         jobs.append((sp, None, limits)); by_name[sp["name"]] = sp
     # redelivery after a crash: every crash point of the canonical run of the single-execution wait / task scenarios
     for sc in scs:
-        if sc["name"] in ("wait-seconds-5", "wait-timestamp-future", "wait-secondspath"):
+        if sc["name"] in ("wait-seconds-5", "wait-timestamp-future", "wait-secondspath") or (tier == "thorough" and sc["name"] in ("exec-timeout-in-wait", "wait-timestamppath", "wait-seconds-1", "wait-timestamp-past")):
             s0 = copy.deepcopy(sc); s0["schedule"] = "prompt"; s0["delay_budget"] = 0
             labels, ops = c04.canonical(s0)
             for k in range(len(labels) + 1):
